@@ -506,7 +506,11 @@ class Interp(Engine):
             kb = b.kind
         num = lambda k: k is KInt or k is KBool or isinstance(k, KEnum)
         if ka is KStr and kb is KStr and isinstance(op, ast.Add):
-            return SV(KStr, z3.Concat(a.term, b.term))
+            out = SV(KStr, z3.Concat(a.term, b.term))
+            h = self.reg.rt_helpers.get("str_concat_hook")
+            if h is not None:
+                h(self, st, a, b, out)
+            return out
         if ka is KStr and isinstance(op, ast.Mod):
             return SV(KStr, st.fresh("fmt", z3.StringSort()))
         if ka is KVal or kb is KVal:
@@ -848,6 +852,8 @@ class Interp(Engine):
         if bm.func is not None:
             return self.call_function(st, bm.func, [recv] + list(args), kwargs, node)
         k = recv.kind
+        if isinstance(k, KRef) and (k.cls, bm.name) in self.methods:
+            return self.methods[(k.cls, bm.name)](self, st, recv, args, kwargs, node)
         tag = "list" if isinstance(k, KList) else "dict" if isinstance(k, KDict) else "set" if isinstance(k, KSet) else k.name
         h = self.methods.get((tag, bm.name))
         if h is None:
